@@ -1,5 +1,6 @@
 import BoltonsVerif.C06.Model
 import BoltonsVerif.C06.Tables
+import BoltonsVerif.C06.Proofs
 import BoltonsVerif.Generated.Src_urlutils_quote
 /-
 C06 — SOURCE TIE (round 3e): the quoting functions of `boltons/urlutils.py`, translated from the source text on every
@@ -67,6 +68,151 @@ theorem src_quote_userinfo_part_eq_model (nfc : Text → Text) (text : Text) (fu
     Src.urlutils.quote_userinfo_part nfc text full = quotePart .userinfo nfc full text := by
   unfold Src.urlutils.quote_userinfo_part; quote_tie
 
+/-! ## `unquote_to_bytes`: the split-on-`%` loop is the model's left-to-right scan
+
+`Src.urlutils.unquote_to_bytes s = C06.unqBytes (utf8 s)`: the model function is stated on a string whose code points
+are its bytes (ASCII, what `unquote` hands over); for every other str the source encodes first, and so does the
+right-hand side.  The proof goes through the reference decoder `unqSpec` (`unqBytes_eq_spec`): the pieces between
+the `%` signs, decoded one by one, satisfy the three defining equations of `unqSpec`. -/
+
+/-- the contribution of one piece after a `%`, as the list of chunks the loop body appends -/
+def unqChunks (item : Bytes) : List Bytes :=
+  match PyRtC06.hexGet hexMap (item.take 2) with
+  | some v => [v, item.drop 2]
+  | none => [[37], item]
+
+/-- a loop that only appends chunks computes, once joined, the concatenation of the chunks -/
+theorem src_foldl_chunks (g : Bytes → List Bytes) (body : List Bytes → Bytes → List Bytes)
+    (h : ∀ res item, body res item = res ++ g item) :
+    ∀ (l : List Bytes) (res : List Bytes),
+      PyRtC06.joinEmpty (l.foldl body res) = res.flatten ++ l.flatMap (fun i => (g i).flatten) := by
+  intro l
+  induction l with
+  | nil => intro res; simp [PyRtC06.joinEmpty]
+  | cons x r ih => intro res; simp [List.foldl_cons, ih, h, List.flatMap_cons]
+
+def pieceHd (l : Bytes) : Bytes := (PyRtC06.splitOn 37 l).headD []
+def pieceTl (l : Bytes) : List Bytes := (PyRtC06.splitOn 37 l).drop 1
+
+theorem splitOn_eq (l : Bytes) : PyRtC06.splitOn 37 l = pieceHd l :: pieceTl l := by
+  unfold pieceHd pieceTl
+  cases h : PyRtC06.splitOn 37 l with
+  | nil => exact absurd h (PyRtC06.splitOn_ne_nil 37 l)
+  | cons a b => simp
+
+theorem splitOn_pct (r : Bytes) : PyRtC06.splitOn 37 (37 :: r) = [] :: PyRtC06.splitOn 37 r := by
+  simp [PyRtC06.splitOn]
+theorem splitOn_ne {x : Nat} (h : x ≠ 37) (r : Bytes) :
+    PyRtC06.splitOn 37 (x :: r) = (x :: pieceHd r) :: pieceTl r := by
+  rw [PyRtC06.splitOn, if_neg h, splitOn_eq r]
+
+theorem pieceHd_nil : pieceHd [] = [] := by simp [pieceHd, PyRtC06.splitOn]
+theorem pieceTl_nil : pieceTl [] = [] := by simp [pieceTl, PyRtC06.splitOn]
+theorem pieceHd_pct (r : Bytes) : pieceHd (37 :: r) = [] := by rw [pieceHd, splitOn_pct]; rfl
+theorem pieceTl_pct (r : Bytes) : pieceTl (37 :: r) = pieceHd r :: pieceTl r := by
+  rw [pieceTl, splitOn_pct, splitOn_eq r]; rfl
+theorem pieceHd_ne {x : Nat} (h : x ≠ 37) (r : Bytes) : pieceHd (x :: r) = x :: pieceHd r := by
+  rw [pieceHd, splitOn_ne h]; rfl
+theorem pieceTl_ne {x : Nat} (h : x ≠ 37) (r : Bytes) : pieceTl (x :: r) = pieceTl r := by
+  rw [pieceTl, splitOn_ne h]; rfl
+
+/-- the decoded pieces, joined -/
+def piecesDec (l : Bytes) : Bytes := pieceHd l ++ (pieceTl l).flatMap (fun i => (unqChunks i).flatten)
+
+theorem rt_hexGet_pair (a b : Nat) : PyRtC06.hexGet hexMap [a, b] = (hexPair? a b).map (fun v => [v]) := by
+  simp [PyRtC06.hexGet, hexPair?, Option.map_map, Function.comp_def]
+
+theorem rt_hexGet_short (k : Bytes) (h : k.length < 2) : PyRtC06.hexGet hexMap k = none := by
+  match k, h with
+  | [], _ => rfl
+  | [_], _ => rfl
+
+theorem piecesDec_nil : piecesDec [] = [] := by simp [piecesDec, pieceHd_nil, pieceTl_nil]
+
+theorem piecesDec_ne {x : Nat} (h : x ≠ 37) (r : Bytes) : piecesDec (x :: r) = x :: piecesDec r := by
+  simp [piecesDec, pieceHd_ne h, pieceTl_ne h]
+
+theorem piecesDec_pct (r : Bytes) :
+    piecesDec (37 :: r) = (unqChunks (pieceHd r)).flatten ++ (pieceTl r).flatMap (fun i => (unqChunks i).flatten) := by
+  simp [piecesDec, pieceHd_pct, pieceTl_pct]
+
+/-- `%` not followed by a key of the hex map stays -/
+theorem piecesDec_pct_stay (r : Bytes) (h : PyRtC06.hexGet hexMap ((pieceHd r).take 2) = none) :
+    piecesDec (37 :: r) = 37 :: piecesDec r := by
+  rw [piecesDec_pct]
+  simp [unqChunks, h, piecesDec]
+
+theorem piecesDec_eq_spec (l : Bytes) : piecesDec l = unqSpec l := by
+  fun_induction unqSpec l with
+  | case1 => exact piecesDec_nil
+  | case2 a b r hh ih =>
+    simp only [Bool.and_eq_true] at hh
+    have ha : a ≠ 37 := fun e => by rw [e] at hh; simp [isHexDigit] at hh
+    have hb : b ≠ 37 := fun e => by rw [e] at hh; simp [isHexDigit] at hh
+    have hp : hexPair? a b = some (16 * hexVal a + hexVal b) := by
+      rw [hexPair_eq_spec]; simp [hexSpec, hh.1, hh.2]
+    rw [piecesDec_pct, pieceHd_ne ha, pieceHd_ne hb, pieceTl_ne ha, pieceTl_ne hb, ← ih]
+    simp [unqChunks, rt_hexGet_pair, hp, piecesDec]
+  | case3 a b r hh ih =>
+    rw [← ih]
+    apply piecesDec_pct_stay
+    by_cases ha : a = 37
+    · subst ha; simp [pieceHd_pct]; exact rt_hexGet_short [] (by simp)
+    · rw [pieceHd_ne ha]
+      by_cases hb : b = 37
+      · subst hb; simp [pieceHd_pct]; exact rt_hexGet_short [a] (by simp)
+      · rw [pieceHd_ne hb]
+        simp only [List.take_succ_cons, List.take_zero]
+        rw [rt_hexGet_pair, hexPair_eq_spec]
+        simp only [Bool.and_eq_true] at hh
+        simp [hexSpec, hh]
+  | case4 c rest hne ih =>
+    rw [← ih]
+    by_cases hc : c = 37
+    · subst hc
+      apply piecesDec_pct_stay
+      match rest, hne with
+      | [], _ => simp [pieceHd_nil]; exact rt_hexGet_short [] (by simp)
+      | [a], _ =>
+        by_cases ha : a = 37
+        · subst ha; simp [pieceHd_pct]; exact rt_hexGet_short [] (by simp)
+        · simp [pieceHd_ne ha, pieceHd_nil]; exact rt_hexGet_short [a] (by simp)
+      | a :: b :: r, hne => exact (hne a b r rfl rfl).elim
+    · exact piecesDec_ne hc rest
+
+/-- no `%`: the only piece is the whole string -/
+theorem pieceHd_of_tl_nil : ∀ (l : Bytes), pieceTl l = [] → pieceHd l = l := by
+  intro l
+  induction l with
+  | nil => intro _; exact pieceHd_nil
+  | cons x r ih =>
+    intro h
+    by_cases hx : x = 37
+    · subst hx; rw [pieceTl_pct] at h; cases h
+    · rw [pieceTl_ne hx] at h; rw [pieceHd_ne hx, ih h]
+
+theorem src_unquote_to_bytes_eq_model (s : Text) :
+    Src.urlutils.unquote_to_bytes s = unqBytes (utf8 s) := by
+  rw [unqBytes_eq_spec, ← piecesDec_eq_spec]
+  unfold Src.urlutils.unquote_to_bytes
+  simp only [rt_utf8_eq]
+  cases s with
+  | nil => simp [utf8, piecesDec_nil]
+  | cons c cs =>
+    generalize utf8 (c :: cs) = l
+    rw [splitOn_eq l]
+    by_cases ht : pieceTl l = []
+    · simp [ht, piecesDec, pieceHd_of_tl_nil l ht]
+    · have hlen : ((pieceHd l :: pieceTl l).length == 1) = false := by
+        cases h : pieceTl l <;> simp_all
+      simp only [hlen, List.isEmpty_cons, Bool.not_false, Bool.not_true, Bool.false_eq_true, if_false,
+        List.headD_cons, List.drop_succ_cons, List.drop_zero]
+      rw [src_foldl_chunks unqChunks]
+      · simp [piecesDec]
+      · intro res item
+        simp only [unqChunks]
+        split <;> simp [*]
+
 /-! non-vacuity: the generated definitions compute (`a/b c?` → `a%2Fb%20c%3F`, and only `/`, `?` when not full) -/
 example : Src.urlutils.quote_path_part id [97, 47, 98, 32, 99, 63] true
     = [97, 37, 50, 70, 98, 37, 50, 48, 99, 37, 51, 70] := by decide
@@ -75,6 +221,10 @@ example : Src.urlutils.quote_path_part id [97, 47, 98, 32, 99, 63] false
 example : Src.urlutils.quote_query_part id [97, 38, 233] true = [97, 37, 50, 54, 37, 67, 51, 37, 65, 57] := by decide
 example : Src.urlutils.quote_fragment_part id [35, 47] false = [37, 50, 51, 47] := by decide
 example : Src.urlutils.quote_userinfo_part id [58, 64, 33] true = [37, 51, 65, 37, 52, 48, 33] := by decide
+-- `a%41%4` → `aA%4`; `%e9%` → `\xe9%`; `é` → its UTF-8 bytes
+example : Src.urlutils.unquote_to_bytes [97, 37, 52, 49, 37, 52] = [97, 65, 37, 52] := by decide +kernel
+example : Src.urlutils.unquote_to_bytes [37, 101, 57, 37] = [233, 37] := by decide +kernel
+example : Src.urlutils.unquote_to_bytes [233] = [195, 169] := by decide +kernel
 example : pathDelims ≠ [] ∧ pathMap.length = 256 := by decide +kernel
 
 end C06
